@@ -932,6 +932,7 @@ def check_c07(tier, seed, log=print):
     nontriv = set()
     samples = []
     eager_cmp = 0
+    eager_tol = 0
     for cfgname in r['zoo_out']:
         if 'trace' in cfgname:
             continue
@@ -975,9 +976,28 @@ def check_c07(tier, seed, log=print):
                                       key='%s|%s|%d' % (corpus[idx].origin, P.hexs(S), k))
                     elif len(samples) < 4 and len(pitems) >= 2 and k < len(S):
                         samples.append(dict(definition=r['srcs'][idx], prefix_hex=P.hexs(pr), full_hex=P.hexs(S), partial=pv, oneshot=full))
-                    # eagerness: for look-free definitions the partial stream must equal the reference partial lexer
+                    # eagerness: the partial stream must equal the reference partial lexer (specLexP; specLexPC for look-around
+                    # definitions whose waiting condition validates).  A look-around definition whose graph keeps a redundant late
+                    # accept (certificate flag noP) may wait one byte longer than the reference: the property allows exactly that
                     sv = lean.get('%d PSPEC %s' % (idx, P.hexs(pr)))
-                    if sv is not None and sv != 'LOOK':
+                    cv = lean.get('%d CERT' % idx, '')
+                    if sv is not None and sv != 'LOOK' and cv.startswith('OKL') and cv.endswith('noP'):
+                        eager_tol += 1
+                        sitems = parse_stream(sv)[0]
+                        tmsg = None
+                        if not msg and sitems[:len(pitems)] != pitems:
+                            tmsg = 'the partial lexer committed an item the reference partial lexer does not commit on this buffer'
+                        elif not msg and len(sitems) > len(pitems) and k < len(S):
+                            nv = st.get((idx, 'p', P.hexs(S[:k + 1])))
+                            if nv is not None:
+                                nitems = parse_stream(nv)[0]
+                                if nitems[:len(sitems)] != sitems:
+                                    tmsg = 'an item determined by this buffer is still not committed one byte later'
+                        if tmsg:
+                            fails.add(idx)
+                            run.violation('partial-eager', rep_of(r, idx, cfgname, 'p', P.hexs(pr), full_input_hex=P.hexs(S), partial_stream=pv, reference_partial=sv, what=tmsg),
+                                          key='eagertol|%s|%s' % (corpus[idx].origin, P.hexs(pr)))
+                    elif sv is not None and sv != 'LOOK':
                         eager_cmp += 1
                         if sv != pv and not msg:
                             fails.add(idx)
@@ -988,6 +1008,9 @@ def check_c07(tier, seed, log=print):
     certp = dict(P=0, noP=0)
     for i in r['accepted']:
         v = lean.get('%d CERT' % i, '')
+        if v.startswith('OKL'):
+            flag = 'look_' + v.split(' ')[-1]
+            certp[flag] = certp.get(flag, 0) + 1
         if v.startswith('OK '):
             flag = v.split(' ')[-1]
             certp[flag] = certp.get(flag, 0) + 1
@@ -1002,7 +1025,7 @@ def check_c07(tier, seed, log=print):
     run.coverage.update(dict(evaluations=n, distinct_nontrivial=len(nontriv),
                              rule='for sampled inputs S of every accepted definition and every split point k: Lexer::new_partial over S[..k] vs the one-shot lexing of S by the same compiled lexer '
                                   '(leading run, empty span at None, position between committed end and next start), and vs the Lean reference partial lexer specLexP for look-free definitions; non-trivial = at least one item committed before a proper split',
-                             samples=samples, eagerness_comparisons=eager_cmp,
+                             samples=samples, eagerness_comparisons=eager_cmp, eagerness_one_byte_tolerance_comparisons=eager_tol,
                              model_vs_impl_disagreements=dis, impl_vs_oracle_failures=len(fails)))
     return run.finish()
 
